@@ -1279,16 +1279,12 @@ def add_invariant_checks(cls: ClassT) -> None:
             init_func = value
             continue
 
-        if (
-            name != "__setattr__"
-            and InvariantCheckEvent.CALL not in last_invariant.check_on
-        ):
+        # The invariants of the base classes are inherited, so it is the invariants collected for the class
+        # (and not only the invariant decorated last) which determine whether a function needs to be wrapped.
+        if name != "__setattr__" and not cls.__invariants_on_call__:  # type: ignore
             continue
 
-        if (
-            name == "__setattr__"
-            and InvariantCheckEvent.SETATTR not in last_invariant.check_on
-        ):
+        if name == "__setattr__" and not cls.__invariants_on_setattr__:  # type: ignore
             continue
 
         if (
